@@ -440,7 +440,7 @@ impl Response {
                 } else {
                     self.headers.set_header(
                         "Transfer-Encoding",
-                        transfer_encodings.join(" "),
+                        transfer_encodings.join(", "),
                     );
                 }
                 self.headers.add_header(Header {
